@@ -4,7 +4,7 @@ use std::rc::Rc;
 
 pub struct Atoms {
     /// current interval of each atom (part of the abstract state)
-    pub itv: Vec<(i128, i128)>,
+    pub itv: Rc<Vec<(i128, i128)>>,
     pub defs: Rc<Vec<AtomDef>>,
     /// odd moduli of interest (q): exact divisions by 2^k keep a congruence modulo these
     pub moduli: Rc<Vec<i128>>,
@@ -115,22 +115,28 @@ impl Atoms {
         let mut cur = l.modulo(m)?;
         for _ in 0..32 {
             let mut changed = false;
-            let mut acc_opt = Some(Lin { m: cur.m, d: cur.d, terms: vec![] });
+            let mm = cur.m;
+            let mut terms: Vec<(AtomId, i128)> = Vec::with_capacity(cur.terms.len());
+            let mut d = cur.d;
             for (a, c) in cur.terms.iter() {
                 let def = self.defs.get(*a as usize).and_then(|d| d.def.clone());
-                let piece = match def {
-                    Some(d) if d.m == 0 || d.m % m == 0 => {
+                match def {
+                    Some(df) if df.m == 0 || df.m % m == 0 => {
                         changed = true;
-                        d.scale(*c).and_then(|x| x.modulo(m))
+                        let cc = if mm > 0 { c.rem_euclid(mm) } else { *c };
+                        for (a2, c2) in df.terms.iter() {
+                            let c2r = if mm > 0 { c2.rem_euclid(mm) } else { *c2 };
+                            let p = cc.checked_mul(c2r)?;
+                            terms.push((*a2, if mm > 0 { p.rem_euclid(mm) } else { p }));
+                        }
+                        let dr = if mm > 0 { df.d.rem_euclid(mm) } else { df.d };
+                        let p = cc.checked_mul(dr)?;
+                        d = d.checked_add(if mm > 0 { p.rem_euclid(mm) } else { p })?;
                     }
-                    _ => Lin { m: 0, d: 0, terms: vec![(*a, *c)] }.modulo(m),
-                };
-                acc_opt = match (acc_opt, piece) {
-                    (Some(x), Some(p)) => x.add(&p),
-                    _ => None,
-                };
+                    _ => terms.push((*a, *c)),
+                }
             }
-            cur = acc_opt?.modulo(m)?;
+            cur = Lin::from_parts(mm, d, terms)?.modulo(m)?;
             if !changed {
                 break;
             }
@@ -143,6 +149,10 @@ impl Atoms {
         if l.m > 1 && l.terms.is_empty() {
             return Some((l.m, l.d.rem_euclid(l.m)));
         }
+        // terms over atoms without definitions cannot cancel
+        if !l.terms.iter().any(|t| self.defs.get(t.0 as usize).map(|d| d.def.is_some()).unwrap_or(false)) {
+            return None;
+        }
         for m in self.moduli(l) {
             if let Some(e) = self.expand_mod(l, m) {
                 if e.terms.is_empty() && e.m > 1 {
@@ -153,10 +163,37 @@ impl Atoms {
         None
     }
 
+    /// a congruence  v = F (mod m)  becomes the equality v = F + k*m when the interval of v and the
+    /// range of F (coefficients taken in (-m/2, m/2]) leave a single k
+    pub fn exactify(&self, v: &IntV) -> Option<Lin> {
+        let l = v.lin.as_ref()?;
+        if l.m <= 1 || l.terms.is_empty() || v.lo == i128::MIN || v.hi == i128::MAX {
+            return None;
+        }
+        let m = l.m;
+        let half = m / 2;
+        let center = |c: i128| -> i128 { let r = c.rem_euclid(m); if r > half { r - m } else { r } };
+        let terms: Vec<(AtomId, i128)> = l.terms.iter().map(|t| (t.0, center(t.1))).collect();
+        let f = Lin { m: 0, d: center(l.d), terms };
+        let (flo, fhi) = self.eval_lin(&f)?;
+        // v = F + k*m  =>  k in [ceil((v.lo - fhi)/m), floor((v.hi - flo)/m)]
+        let klo = ceil_div(v.lo.checked_sub(fhi)?, m);
+        let khi = floor_div(v.hi.checked_sub(flo)?, m);
+        if klo != khi {
+            return None;
+        }
+        Some(Lin { m: 0, d: f.d.checked_add(klo.checked_mul(m)?)?, terms: f.terms })
+    }
+
     /// tighten a value's interval with everything known about it; None if empty (infeasible)
     pub fn concretize(&self, v: &IntV) -> Option<IntV> {
         let mut r = v.clone();
-        if let Some(l) = &v.lin {
+        if !self.moduli.is_empty() {
+            if let Some(ex) = self.exactify(v) {
+                r.lin = Some(Rc::new(ex));
+            }
+        }
+        if let Some(l) = &r.lin.clone() {
             if let Some((lo, hi)) = self.eval_lin(l) {
                 r.lo = r.lo.max(lo);
                 r.hi = r.hi.min(hi);
@@ -841,7 +878,9 @@ pub fn refine_atom(at: &mut Atoms, v: &IntV) -> bool {
                 return false;
             }
             if (a as usize) < at.itv.len() {
-                at.itv[a as usize] = (lo, hi);
+                if at.itv[a as usize] != (lo, hi) {
+                    Rc::make_mut(&mut at.itv)[a as usize] = (lo, hi);
+                }
             }
         }
     }
